@@ -1,3 +1,4 @@
+mod crashx;
 mod model;
 mod util;
 mod world;
